@@ -206,6 +206,13 @@ def run(ctx):
         ctx.extra['product_dimensions'] = {'preceding_constructs': len(PRE), 'layouts': len(LAYOUT),
                                            'following_texts': len(FOLLOW)}
 
+        from vk.gen import products
+        for idx, (key, text) in enumerate(products.lexical_products()):
+            if '/' not in text or idx % ctx.nshards != ctx.shard or (ctx.tier == 'quick' and (idx // ctx.nshards) % 2):
+                continue
+            check(ctx, tl, text, text, 'lexical_product')
+            ctx.hit('lexical_product')
+
         def opts_fn(i, r):
             return jsgen.Opts(clean=(i % 2 == 0), unicode_idents=(i % 4 == 1), string_continuations=(i % 3 == 0))
         progs = work.Programs(ctx, ctx.pick(250, 5000), opts_fn=opts_fn)
